@@ -26,6 +26,8 @@ func init() {
 			{ID: "R06c", Floor: 2, Doc: "rescan completeness: probe of the last byte (or equivalent) dominates indexing; all scanned sections indexed; writer positioned from the section offsets", Run: ruleR06c},
 			{ID: "R06d", Floor: 3, Doc: "validate-before-mutate in Resume", Run: ruleR12a},
 			{ID: "R06e", Floor: 1, Doc: "Header.ReadFrom: field stores only after the three range checks", Run: ruleR09e},
+			{ID: "R06i", Floor: 2, Doc: "every section written is indexed: from the success outcome of the section write, neither the next section write nor a success return is reachable without passing InsertNoReplace (= R12g)", Run: ruleR12g},
+			{ID: "R06h", Floor: 2, Doc: "who may write the v2 header slot of a read-write session's file: store.Finalize writes the final header (after the index, R06b); everywhere else in the writing packages only the all-zero header may be written (a non-final, non-zero header on disk makes a later torn Finalize header look complete to Resume)", Run: ruleR06h},
 			{ID: "R06g", Floor: 1, Doc: "the file is truncated by the header on file only when that header is complete: IndexOffset (the last field Finalize writes) >= DataOffset + DataSize", Run: ruleR06g},
 			{ID: "R06f", Floor: 1, Doc: "every section already in the file is re-indexed on resume (= R12c): acknowledged blocks stay retrievable", Run: ruleR12c},
 		},
@@ -45,7 +47,9 @@ func init() {
 			{ID: "R12c", Floor: 1, Doc: "every scanned section is indexed during rescan", Run: ruleR12c},
 			{ID: "R12d", Floor: 1, Doc: "Matches compares whole CIDs", Run: ruleR12d},
 			{ID: "R12e", Floor: 2, Doc: "both callers of Resume pass WriteAsCarV1 / MaxAllowedHeaderSize / ZeroLengthSectionAsEOF / DataOffset to the parameters that play those roles", Run: ruleR12e},
+			{ID: "R12g", Floor: 2, Doc: "every section written is indexed: from the success outcome of the section write, neither the next section write nor a success return is reachable without passing InsertNoReplace (Resume re-indexes every section, so an uninterrupted session must too)", Run: ruleR12g},
 			{ID: "R12f", Floor: 2, Doc: "rescan bound and writer re-positioning (= R06c): the writer resumes at the end of the last indexed section, also when there is none yet", Run: ruleR06c},
+			{ID: "R12h", Floor: 1, Doc: "Finalize writes index then header in the one shape Resume understands (= R06b)", Run: ruleR06b},
 		},
 	})
 	register(PropertyDef{
@@ -61,6 +65,7 @@ func init() {
 			{ID: "R16b", Floor: 2, Doc: "index only after success (= R06a)", Run: ruleR06a},
 			{ID: "R16c", Floor: 2, Doc: "rollback or poison after a failed section write", Run: ruleR16c},
 			{ID: "R16e", Floor: 8, Doc: "framing writer: every part written by its own checked Write, in order (= R01b)", Run: ruleR01b},
+			{ID: "R16g", Floor: 2, Doc: "a deferred function assigns the enclosing function's named error result only where that result is still nil (or when wrapping it): the primary error — a failed Finalize, a failed write — is never replaced by the outcome of a cleanup", Run: ruleR16g},
 			{ID: "R16f", Floor: 1, Doc: "the deferred writer remembers its CAR writer only when constructing it (header write included) succeeded", Run: ruleR16f},
 			{ID: "R16d", Floor: 2, Doc: "position bookkeeping adds exactly the reported byte count", Run: ruleR16d},
 		},
@@ -351,16 +356,16 @@ func ruleR12c(c *Ctx, r *Report) {
 	cut := EdgeSet{}
 	for _, i := range ins {
 		for s := range i.Block().Succs {
-			cut[Edge{i.Block(), s}] = true
+			cut[Edge{From: i.Block(), Succ: s}] = true
 		}
 	}
 	// from the CID read, can we get back to the length read without inserting?
 	back := false
 	for s := range cids[0].Block().Succs {
-		if cut[Edge{cids[0].Block(), s}] {
+		if cut[Edge{From: cids[0].Block(), Succ: s}] {
 			continue
 		}
-		if reachFromEdge(fn, Edge{cids[0].Block(), s}, cut)[lens[0].Block()] {
+		if reachFromEdge(fn, Edge{From: cids[0].Block(), Succ: s}, cut)[lens[0].Block()] {
 			back = true
 		}
 	}
@@ -1043,7 +1048,19 @@ func ruleR12e(c *Ctx, r *Report) {
 					bad = fmt.Sprintf("argument %d of store.Resume plays the role of %s inside Resume but the caller passes something else (same-typed arguments swapped?)", i+1, rl)
 				}
 			}
-			r.Check(bad == "", key, c.Pos(ci.Pos()), "DataOffset, WriteAsCarV1, MaxAllowedHeaderSize, ZeroLengthSectionAsEOF reach the parameters with those roles", bad)
+			// the roots the file is compared with are the caller's own argument
+			for i, p := range fn.Params {
+				sl, isSl := p.Type().Underlying().(*types.Slice)
+				if !isSl || !isNamed(sl.Elem(), pkgCid, "Cid") {
+					continue
+				}
+				for _, o := range origins(ci.Common().Args[i], originOpts{}) {
+					if o.Kind != "param" {
+						bad = fmt.Sprintf("the roots handed to store.Resume (argument %d) are not purely the caller's roots argument (also: %s at %s): if they can come from the file itself, the roots-must-match validation compares the file with itself", i+1, o.Kind, c.Pos(o.Val.Pos()))
+					}
+				}
+			}
+			r.Check(bad == "", key, c.Pos(ci.Pos()), "DataOffset, WriteAsCarV1, MaxAllowedHeaderSize, ZeroLengthSectionAsEOF reach the parameters with those roles; roots are the caller's argument", bad)
 		}
 	}
 }
@@ -1107,4 +1124,222 @@ func ruleR06g(c *Ctx, r *Report) {
 		}
 	}
 	r.Check(bad == "", key, c.Pos(tr[0].Pos()), "Truncate only behind IndexOffset >= DataOffset + DataSize", bad)
+}
+
+// ruleR06h: on-disk state of a session is "pragma | zeroed-or-final header | ...".
+func ruleR06h(c *Ctx, r *Report) {
+	for _, fn := range c.RepoFuncs() {
+		p := fn.Pkg.Pkg.Path()
+		if p != pkgStore && p != pkgBS && p != pkgStorage && p != pkgDeferred {
+			continue
+		}
+		ord := 0
+		eachInstr(fn, func(in ssa.Instruction) {
+			ci, ok := in.(ssa.CallInstruction)
+			if !ok {
+				return
+			}
+			f := calleeFunc(ci.Common())
+			if !funcIs(f, modV2, "Header", "WriteTo") {
+				return
+			}
+			ord++
+			key := fmt.Sprintf("header-slot-write@%s#%d", fnKey(fn), ord)
+			if funcIs(fn.Object().(*types.Func), pkgStore, "", "Finalize") {
+				r.Hold(key, c.Pos(in.Pos()), "the final header, written by store.Finalize")
+				return
+			}
+			args := callArgs(ci.Common())
+			zero := false
+			if len(args) > 0 {
+				switch v := strip(args[0]).(type) {
+				case *ssa.Const:
+					zero = v.Value == nil
+				case *ssa.UnOp:
+					if al, isAl := v.X.(*ssa.Alloc); isAl && v.Op == token.MUL {
+						zero = true
+						for _, ref := range *al.Referrers() {
+							if u, isLoad := ref.(*ssa.UnOp); isLoad && u.Op == token.MUL {
+								continue
+							}
+							if _, isDbg := ref.(*ssa.DebugRef); isDbg {
+								continue
+							}
+							zero = false
+						}
+					}
+				}
+			}
+			r.Check(zero, key, c.Pos(in.Pos()), "writes the all-zero header (un-finalize)",
+				"a header that is neither the final one (store.Finalize) nor all-zero is written into the header slot: if a later Finalize header write is torn, the bytes left from this header complete it and Resume truncates the payload by a partial DataSize")
+		})
+	}
+}
+
+// ruleR12g: write -> index is a must-pass-through pair on the put paths.
+func ruleR12g(c *Ctx, r *Report) {
+	for _, s := range [][3]string{{pkgBS, "ReadWrite", "PutMany"}, {pkgStorage, "StorageCar", "Put"}} {
+		fn, err := c.Func(s[0], s[1], s[2])
+		if err != nil {
+			r.InfraFail("%v", err)
+			continue
+		}
+		key := "write-implies-index@" + fnKey(fn)
+		writes := callsToFunc(fn, pkgV1Util, "", "LdWrite")
+		ins := callsToFunc(fn, pkgIndex, "InsertionIndex", "InsertNoReplace")
+		if len(writes) != 1 || len(ins) == 0 {
+			r.Undec(key, c.Pos(fn.Pos()), fmt.Sprintf("expected one LdWrite and at least one InsertNoReplace, found %d and %d", len(writes), len(ins)))
+			continue
+		}
+		okEdges := condEdges(fn, errNilCond(errOfCall(writes[0]), true))
+		if len(okEdges) == 0 {
+			r.Undec(key, c.Pos(writes[0].Pos()), "the success outcome of LdWrite is not tested")
+			continue
+		}
+		insBlocks := map[*ssa.BasicBlock]bool{}
+		for _, i := range ins {
+			insBlocks[i.Block()] = true
+		}
+		cut := EdgeSet{}
+		for _, b := range fn.Blocks {
+			for i, sc := range b.Succs {
+				if insBlocks[sc] {
+					cut[Edge{From: b, Succ: i}] = true
+				}
+			}
+		}
+		bad := ""
+		for _, e := range okEdges {
+			tgt := e.From.Succs[e.Succ]
+			if insBlocks[tgt] {
+				continue
+			}
+			rs := reachFromEdge(fn, e, cut)
+			if rs[writes[0].Block()] {
+				bad = "after a successful section write the next section can be written without the first having been indexed"
+			}
+			for _, ret := range returnsOf(fn) {
+				if rs[ret.Block()] && resultIsNilConst(ret, len(ret.Results)-1) {
+					bad = fmt.Sprintf("the success return at %s is reachable after a successful section write without InsertNoReplace: the section is in the file but not in the index (a resumed session re-indexes it, an uninterrupted one does not)", c.Pos(ret.Pos()))
+				}
+			}
+		}
+		r.Check(bad == "", key, c.Pos(writes[0].Pos()), "LdWrite success -> InsertNoReplace on every path", bad)
+	}
+}
+
+// ruleR16g: deferred closures and the named error result.
+func ruleR16g(c *Ctx, r *Report) {
+	for _, fn := range c.RepoFuncs() {
+		if !inLib(fn) {
+			continue
+		}
+		eachInstr(fn, func(in ssa.Instruction) {
+			d, ok := in.(*ssa.Defer)
+			if !ok {
+				return
+			}
+			mc, ok := d.Call.Value.(*ssa.MakeClosure)
+			if !ok {
+				return
+			}
+			g := mc.Fn.(*ssa.Function)
+			for i, fv := range g.FreeVars {
+				pt, ok := fv.Type().Underlying().(*types.Pointer)
+				if !ok || !types.Identical(pt.Elem(), types.Universe.Lookup("error").Type()) {
+					continue
+				}
+				// the cell must be a named result of fn
+				cell, _ := mc.Bindings[i].(*ssa.Alloc)
+				if cell == nil || !isNamedResultCell(fn, cell) {
+					continue
+				}
+				isErr := func(v ssa.Value) bool {
+					u, ok := v.(*ssa.UnOp)
+					return ok && u.Op == token.MUL && u.X == ssa.Value(fv)
+				}
+				stores := storesTo(fv)
+				if len(stores) == 0 {
+					continue
+				}
+				key := "deferred-error-assign@" + fnKey(g)
+				nilE := condEdges(g, errNilCond(isErr, true))
+				recE := condEdges(g, CondMatch(func(v ssa.Value) (bool, bool) {
+					// recover() != nil
+					b, ok := v.(*ssa.BinOp)
+					if !ok || (b.Op != token.NEQ && b.Op != token.EQL) {
+						return false, false
+					}
+					cl, _ := b.X.(*ssa.Call)
+					if cl == nil {
+						return false, false
+					}
+					if bi, ok := cl.Call.Value.(*ssa.Builtin); ok && bi.Name() == "recover" && isNilConst(b.Y) {
+						return true, b.Op == token.NEQ
+					}
+					return false, false
+				}))
+				rs := reach(g, nil, edgeSet(nilE, recE))
+				bad := ""
+				for _, st := range stores {
+					if !rs[st.Block()] {
+						continue
+					}
+					wraps := false
+					for v := range flowSources(st.Val) {
+						if isErr(v) {
+							wraps = true
+						}
+					}
+					if !wraps {
+						bad = fmt.Sprintf("the deferred function assigns the named error result at %s also when it already holds an error: the primary failure is replaced by the cleanup's outcome (nil when the cleanup succeeds), and the caller is told the operation succeeded", c.Pos(st.Pos()))
+					}
+				}
+				r.Check(bad == "", key, c.Pos(d.Pos()), "assigns the result only behind `err == nil` (or wraps it)", bad)
+			}
+		})
+	}
+}
+
+func isNamedResultCell(fn *ssa.Function, cell *ssa.Alloc) bool {
+	res := fn.Signature.Results()
+	for i := 0; i < res.Len(); i++ {
+		if res.At(i).Name() != "" && res.At(i).Name() == cell.Comment {
+			return true
+		}
+	}
+	return false
+}
+
+// flowSources: the values a value is computed from (arguments of calls, operands, phi edges), bounded.
+func flowSources(v ssa.Value) map[ssa.Value]bool {
+	out := map[ssa.Value]bool{}
+	var walk func(v ssa.Value, d int)
+	walk = func(v ssa.Value, d int) {
+		if v == nil || out[v] || d > 8 {
+			return
+		}
+		out[v] = true
+		if in, ok := v.(ssa.Instruction); ok {
+			for _, op := range in.Operands(nil) {
+				if *op != nil {
+					walk(*op, d+1)
+				}
+			}
+		}
+		// varargs slices: follow stores into the backing array
+		if sl, ok := v.(*ssa.Slice); ok {
+			if al, ok := sl.X.(*ssa.Alloc); ok {
+				for _, ref := range *al.Referrers() {
+					if ia, ok := ref.(*ssa.IndexAddr); ok {
+						for _, st := range storesTo(ia) {
+							walk(st.Val, d+1)
+						}
+					}
+				}
+			}
+		}
+	}
+	walk(v, 0)
+	return out
 }
